@@ -6,11 +6,19 @@ from .common import Ob, finish
 T_RUSTC = 'rustc MIR semantics as modelled by dv/mirsym.py (validated against native runs by the concrete-domain self-test)'
 T_ARK = 'arkworks crates (ark-ff, ark-ec, ark-serialize) wherever /repo delegates to them'
 
+def S_ZERO():
+    """contract S, zero-operand part (cheap): included by every property whose algebra check replaces the square root by its contract"""
+    from . import sqrt
+    return [('ark sqrt zero cases (contract S)', sqrt.check_sqrt_zero_cases, ('ark',)), ('min sqrt zero cases (contract S)', sqrt.check_sqrt_zero_cases, ('min',))]
+def S_FULL():
+    from . import sqrt
+    return S_ZERO() + [('ark table-driven sqrt, nonzero operands (contract S)', sqrt.check_sqrt_ark_log, ()), ('min Tonelli-Shanks, nonzero operands (contract S)', sqrt.check_sqrt_min_log, ())]
+
 def C02(t0):
     from . import curve
     from . import wiring
     jobs = [('min decode algebra', curve.check_decode_algebra, ('min',)), ('ark decode algebra', curve.check_decode_algebra, ('ark',)),
-            ('min decode funnel', wiring.check_decode_funnel, ('min',)), ('ark decode funnel', wiring.check_decode_funnel, ('ark',))]
+            ('min decode funnel', wiring.check_decode_funnel, ('min',)), ('ark decode funnel', wiring.check_decode_funnel, ('ark',))] + S_ZERO()
     curve.items_for('min'); curve.items_for('ark')
     obs = par.run_groups(jobs)
     return finish('C02', obs, t0, level='proof',
@@ -31,6 +39,7 @@ def C03(t0):
         from . import wiring
         jobs += [(f'{b} encode algebra', curve.check_encode_algebra, (b,)), (f'{b} encode invariance', curve.check_encode_invariance, (b,)),
                  (f'{b} compress/serialise forms', wiring.check_compress_forms, (b,))]
+    jobs += S_ZERO()
     obs = par.run_groups(jobs)
     return finish('C03', obs, t0, level='proof',
         functions=['Element::vartime_compress_to_field (ark_curve/encoding.rs, min_curve/element.rs)', 'sign::Sign::abs', 'fields::fq::ops operator forms reached'],
@@ -44,6 +53,7 @@ def C07(t0):
     _warm()
     from . import wiring
     jobs = [(f'{b} elligator', curve.check_elligator, (b,)) for b in ('min', 'ark')] + [(f'{b} hash_to_curve wiring', wiring.check_hash_to_curve, (b,)) for b in ('min', 'ark')]
+    jobs += S_FULL()
     obs = par.run_groups(jobs)
     return finish('C07', obs, t0, level='proof',
         functions=['Element::elligator_map (ark_curve/elligator.rs, min_curve/element.rs)', 'ark_curve::constants::{ONE,TWO,ZETA} initialisers', 'TECurveConfig::COEFF_A/COEFF_D'],
@@ -107,7 +117,7 @@ def C06(t0):
     _warm()
     jobs = [('ark constructors', group.check_constructors, ()), ('ark decode funnel', wiring.check_decode_funnel, ('ark',)), ('ark curve constants', consts.check_curve_constants, ('ark',)),
             ('ark group order', consts.check_group_order, ('ark',)), ('ark decode algebra (on-curve of decoded points)', curve.check_decode_algebra, ('ark',)),
-            ('min decode algebra', curve.check_decode_algebra, ('min',)), ('min curve constants', consts.check_curve_constants, ('min',))]
+            ('min decode algebra', curve.check_decode_algebra, ('min',)), ('min curve constants', consts.check_curve_constants, ('min',))] + S_ZERO()
     obs = par.run_groups(jobs)
     return finish('C06', obs, t0, level='proof',
         functions=['AffineRepr::{zero, generator, from_random_bytes, clear_cofactor, mul_by_cofactor_to_group}', 'Group::generator', 'Default for Element/AffinePoint', 'Distribution<Element|AffinePoint>::sample',
@@ -116,3 +126,82 @@ def C06(t0):
         trusted=[T_RUSTC, T_ARK, 'validity is preserved by the group law, negation, scalar action and affine/projective conversion; the image of Elligator lies in the group; decoded points are valid (on-curve part decided by certificate in C02)',
                  'the Decaf theorem that on-curve points produced by decode are in the image 2E'],
         assumptions=['"valid" is tracked as provenance: a result is valid iff every curve point it contains was produced by decode, a checked constant, Elligator or operations on valid points; arkworks raw-point constructors (from_random_bytes, UniformRand) are the only invalid sources'])
+
+def C09(t0):
+    from . import sqrt, consts
+    _warm()
+    jobs = [('ark sqrt zero cases', sqrt.check_sqrt_zero_cases, ('ark',)), ('min sqrt zero cases', sqrt.check_sqrt_zero_cases, ('min',)),
+            ('ark table-driven sqrt (LOG)', sqrt.check_sqrt_ark_log, ()), ('min Tonelli-Shanks (LOG)', sqrt.check_sqrt_min_log, ()),
+            ('legendre', sqrt.check_legendre, ()), ('ark field constants (SQRT_PRECOMP etc.)', consts.check_field_constants, ('ark',)),
+            ('ark curve constants (zeta, M, G, ...)', consts.check_curve_constants, ('ark',)), ('min curve constants', consts.check_curve_constants, ('min',))]
+    obs = par.run_groups(jobs)
+    return finish('C09', obs, t0, level='proof',
+        functions=['ark_curve::invsqrt::{SquareRootTables::new, Fq::sqrt_ratio_zeta} (incl. the Lazy tables, evaluated from their real initialiser)', 'min_curve::invsqrt::{non_arkworks_sqrt_ratio_zeta, our_sqrt, pow_le_limbs}',
+                   'Field::legendre (Fq, Fr, Fp)', 'constants used by the routines'],
+        bounds=['all pairs (num, den) in Fq x Fq: zero operands by path enumeration; nonzero operands with symbolic 47-bit 2-adic exponents and exact odd-part exponent vectors (no bound)',
+                'loops: all have concrete trip counts after constant evaluation (256-entry tables, 46 Tonelli-Shanks iterations)'],
+        trusted=[T_RUSTC, 'F_q^* is cyclic of order 2^47 * M (M odd); checked ground: q - 1 = 2^47 M, zeta non-square, G = zeta^M', 'ark-ff Field::sqrt (Tonelli-Shanks over our SQRT_PRECOMP constants, which are checked) and Field::pow',
+                 'the stage invariants (E + t = 0 mod 2^w_k; Tonelli-Shanks loop invariant) are harness annotations: each is proved from the previous one on the real code, none is assumed'],
+        assumptions=['table entries are replaced by their closed form g^(i*c) only after an exhaustive concrete check of all entries of the real table'])
+
+def _jobs_C02():
+    from . import curve, wiring
+    return [('min decode algebra', curve.check_decode_algebra, ('min',)), ('ark decode algebra', curve.check_decode_algebra, ('ark',)),
+            ('min decode funnel', wiring.check_decode_funnel, ('min',)), ('ark decode funnel', wiring.check_decode_funnel, ('ark',))]
+def _jobs_C03():
+    from . import curve, wiring
+    jobs = []
+    for b in ('min', 'ark'):
+        jobs += [(f'{b} encode algebra', curve.check_encode_algebra, (b,)), (f'{b} encode invariance', curve.check_encode_invariance, (b,)), (f'{b} compress/serialise forms', wiring.check_compress_forms, (b,))]
+    return jobs
+
+def C01(t0):
+    """derived: C01 = C02 (decode = spec decode) + C03 (encode = spec encode, representation independent) + contract S + sign convention + Decaf bijection theorem"""
+    from . import curve, group
+    _warm()
+    jobs = _jobs_C02() + _jobs_C03() + S_FULL() + [('ark negate/named element methods', group.check_sums_and_named, ('ark',)), ('ark negate keeps the representation invariant (coordinate level)', curve.check_negate_poly, ())]
+    obs = par.run_groups(jobs)
+    return finish('C01', obs, t0, level='proof',
+        functions=['vartime_decompress, vartime_compress_to_field, vartime_compress (both builds)', 'both square-root routines', 'sign::Sign', 'all decoding/encoding entry points', 'Element::negate'],
+        bounds=['as C02, C03, C09: all byte strings, all coordinates, slice lengths 0..=80'],
+        trusted=[T_RUSTC, T_ARK, 'the Decaf bijection theorem for (a, d, q) = (-1, 3021, q): spec.decode and spec.encode are mutually inverse on valid representatives; every element reachable by arithmetic is a valid representative',
+                 ],
+        assumptions=['C01 is derived: code decode = spec decode and code encode = spec encode on all inputs, plus the theorem; a VIOLATION is printed only for a natively reproduced round-trip failure'])
+
+def C12(t0):
+    """derived: both builds are compared with the SAME specification on all inputs; duplicated literals are equal"""
+    from . import curve, group, wiring, consts, fields
+    _warm()
+    jobs = _jobs_C02() + _jobs_C03() + S_FULL()
+    jobs += [(f'{b} elligator', curve.check_elligator, (b,)) for b in ('min', 'ark')] + [(f'{b} hash_to_curve wiring', wiring.check_hash_to_curve, (b,)) for b in ('min', 'ark')]
+    jobs += [('ark operator forms', group.sweep_operator_forms, ('ark', ['src/ark_curve/ops/projective.rs', 'src/ark_curve/ops/affine.rs'])), ('min operator forms', group.sweep_operator_forms, ('min', ['src/min_curve/ops.rs'])),
+             ('min group law', group.check_min_group_law, ())] + [(f'min ladder CT={ct} limbs={n}', group.check_min_ladders, (5, (ct, n))) for ct in (True, False) for n in (1, 2, 5)]
+    jobs += [(f'{b} equality/identity coherence', curve.check_equality_coherence, (b,)) for b in ('ark', 'min')]
+    jobs += [(f'{b} field constants', consts.check_field_constants, (b,)) for b in ('ark', 'min')] + [(f'{b} curve constants', consts.check_curve_constants, (b,)) for b in ('ark', 'min')]
+    jobs += fields.jobs_shared()
+    obs = par.run_groups(jobs)
+    return finish('C12', obs, t0, level='proof',
+        functions=['every operation both builds offer: decode, encode, Elligator map and two-input hash, group and scalar operations, equality/identity, field parsing/serialisation/arithmetic, constants'],
+        bounds=['as in C02, C03, C04, C05, C07, C08, C09, C10, C11, C17'],
+        trusted=[T_RUSTC, T_ARK, 'A == spec and B == spec imply A == B within the same bounds; the only freedom the contracts leave (which square root is returned) does not reach any shared observable: abs(), the sign fix of decode and the sign fix of Elligator are applied to it, shown by the same symbolic runs'],
+        assumptions=['derived property: no transcript comparison of two binaries is made by the solver; replay compares both native builds with the common reference'])
+
+def C10(t0):
+    from . import fields
+    _warm()
+    obs = par.run_groups(fields.jobs_C10())
+    return finish('C10', obs, t0, level='proof',
+        functions=['every Add/Sub/Mul/Div/Neg/*Assign impl of fields/{fq,fr,fp}/ops.rs (both builds)', 'Sum/Product impls', 'Field::{double, double_in_place, neg_in_place, square, square_in_place, inverse, inverse_in_place, from_base_prime_field, frobenius_map_in_place}, Zero/One', 'Fq::power'],
+        bounds=['operands symbolic (no bound); iterator sums/products over 0..=3 elements (5 in thorough); power: exponent slices of 0..=3 (5) symbolic 64-bit limbs'],
+        trusted=[T_RUSTC, T_ARK + ': ark-ff Montgomery arithmetic behind the u64 wrappers', 'contracts K (fiat kernels) and W (wrappers): field wrapper add/sub/mul/neg/square/inverse denote the field operations on values'],
+        assumptions=['field elements as polynomials over F_p; inverse as a fresh symbol with x*inv = 1'])
+
+def C11(t0):
+    from . import fields
+    _warm()
+    obs = par.run_groups(fields.jobs_C11())
+    return finish('C11', obs, t0, level='proof',
+        functions=['from_le_bytes_mod_order / from_be_bytes_mod_order (inherent and PrimeField)', 'PrimeField::{from_bigint, into_bigint}', 'CanonicalSerializeWithFlags / CanonicalDeserializeWithFlags (EmptyFlags, TEFlags, SWFlags)'],
+        bounds=['byte strings of every length 0..=200 (bytes symbolic); all limb / byte values symbolic'],
+        trusted=[T_RUSTC, T_ARK, 'W contracts: from_raw_bytes / from_le_limbs denote int mod p, to_bytes_le / to_le_limbs are the canonical digits; FIELD_SIZE_POWER_OF_TWO = 2^(8N) mod p is C17'],
+        assumptions=['flag types modelled by their documented bit layout'])
